@@ -24,10 +24,24 @@ def main():
     use_repo()
     mod = importlib.import_module(f"vf.checks.{prop.lower()}")
     try:
-        if spec.get("replay") is not None and hasattr(mod, "replay"):
-            res = mod.replay(spec["replay"])
+        # transport dimension of the node harness: the same cases over the SCTP code paths of the node
+        rp = spec.get("replay")
+        transport = spec.get("transport") or (rp.get("_transport") if isinstance(rp, dict) else None)
+        if transport:
+            from vf.simnet import world
+            world.DEFAULT_TRANSPORT = transport
+        if rp is not None and hasattr(mod, "replay"):
+            res = mod.replay(rp)
         else:
             res = mod.run_shard(spec)
+        if transport and isinstance(res, dict):
+            for w in res.get("witnesses", []):
+                if isinstance(w.get("replay"), dict):
+                    w["replay"]["_transport"] = transport
+            cov = res.setdefault("coverage", {})
+            cov["cases_over_" + transport] = res.get("evaluations", 0)
+            from vf.simnet.harness import TOTALS
+            cov["sctp_calls"] = dict(TOTALS)
     except BaseException:
         res = {"inconclusive": "shard %s raised: %s" % (spec.get("name"), traceback.format_exc()[-3000:])}
     tmp = op + ".tmp"
